@@ -43,12 +43,12 @@ PADDINGS = [None, "zeros", "border", 1.75, -3.0]
 
 
 def plan(tier, seed):
-    return [["case", i] for i in range(N_CASES[tier])]
+    return [["probe", "far_from_origin_shift"]] + [["case", i] for i in range(N_CASES[tier])]
 
 
 def mandatory(tier):
     out = [f"mode/{m}" for m in ("linear", "nearest")] + [f"padding/{p}" for p in PADDINGS]
-    out += ["api/Image.sample(grid)", "api/ImageBatch.sample(grids)", "api/ImageBatch.sample(grid of first image)", "api/sample(coords)", "api/identity", "api/SampleImage", "api/AlignImage", "api/TransformImage", "inside_samples", "outside_constant_samples", "source/derived_grid", "source/derived_grid/fractional_internal_size", "target/slice", "api/copies"]
+    out += ["api/Image.sample(grid)", "api/ImageBatch.sample(grids)", "api/ImageBatch.sample(grid of first image)", "api/sample(coords)", "api/identity", "api/SampleImage", "api/AlignImage", "api/TransformImage", "inside_samples", "outside_constant_samples", "source/derived_grid", "source/derived_grid/fractional_internal_size", "target/slice", "api/copies", "probe/far_from_origin_shift"]
     return out
 
 
@@ -151,12 +151,43 @@ def compare(ctx, name, got, sref, tref, itk, data, mode, padding, info):
             ctx.close(f"{name}_constant_outside", got[mo], np.full(int(mo.sum()), c), 1e-5 * (rng_ + abs(c)), key=f"{name}/outside_constant", padding=str(padding), **info)
 
 
+def probe_far_shift(ctx):
+    r"""Deterministic probe: a target grid one sample apart from the source grid, far from the world origin.
+
+    The world coordinates of the two grids differ by one spacing (0.3) at a magnitude of 5e4: a relative difference of
+    6e-6. Sampling on the target must return the image shifted by one sample, as ITK does.
+    """
+    import SimpleITK as sitk
+    import torch
+    from deepali.core.grid import Grid
+    from deepali.data.image import Image
+
+    ctx.bucket("probe/far_from_origin_shift")
+    ctx.nontriv("probe", "far_from_origin_shift")
+    for D, centre in ((2, (50000.0, -30000.0)), (3, (50000.0, 20000.0, -40000.0))):
+        size = (9, 8, 7)[:D]
+        sp = (0.3, 0.4, 0.5)[:D]
+        for ac in (True, False):
+            src = Grid(size=size, spacing=sp, center=centre, align_corners=ac)
+            tgt = Grid(size=size, spacing=sp, center=(centre[0] + sp[0],) + tuple(centre[1:]), align_corners=ac)
+            data = torch.arange(float(np.prod(size))).reshape((1,) + tuple(size[::-1]))
+            img = Image(data, src)
+            with ctx.guard("Image.sample(shifted grid far from origin)", key="exc/far_from_origin_shift", D=D):
+                out = img.sample(tgt, mode="nearest")
+                want = data[..., 1:]  # target sample j coincides with source sample j + 1 along x
+                got = out.tensor()[..., :-1]
+                ctx.true("sampling_on_a_grid_one_sample_apart_shifts_the_image", out is not img and bool(torch.equal(got, want)), key="sample/grid_equality_tolerance", D=D, align_corners=ac, returned_self=out is img, center=list(centre), spacing=list(sp))
+                ctx.true("grids_one_sample_apart_are_not_equal", not (src == tgt), key="sample/grid_equality_tolerance", D=D, align_corners=ac)
+
+
 def run_item(ctx, item):
     import torch
     from deepali.core.grid import Axes, grid_transform_points
     from deepali.data.image import Image, ImageBatch
     from deepali.modules.sample import AlignImage, SampleImage, TransformImage
 
+    if item[0] == "probe":
+        return probe_far_shift(ctx)
     i = item[1]
     rng = ctx.rng()
     D = int(rng.choice([2, 3]))
